@@ -39,7 +39,8 @@ claim("C19", "flag-fixed CFG reachability (dry-run purity and validation complet
       "Decides the structural conditions of the two-pass writer: (R19a) every mutating filesystem call is unreachable when the dry-run flag is true; "
       "(R19b) the real pass is dominated by the dry pass on the same arguments and runs only if it returned nil; (R19c) the kind switch over entry "
       "contents ends in an error for unmatched kinds; (R19d) a rejecting test on the joined path dominates every use of it; (R19e) no error result in "
-      "out.go is dropped; (R19f) no description error and no validating callee is reachable only when the flag is false without a dry-side twin. "
+      "out.go is dropped; (R19f) no description error and no validating callee is reachable only when the flag is false without a dry-side twin; (R19g) where the dry pass "
+      "validates against an empty scratch filesystem, the real pass's call is dominated by RemoveAll of that path. "
       "Byte contents, ifExists merge semantics and fault injection are not decided.", NOTE, "DESIGN.md §3 C19")
 
 claim("C20", "table extraction over go/ssa (outcome switch, runFailed dependence), TS-SCCP of isLiteralTrue/False over all value types, error-propagation and control-dependence checks from leaf to exit status",
@@ -54,11 +55,13 @@ claim("C17", "actor-goroutine closure over the VTA call graph (interpreter dispa
       "mailbox channels; (R17b) every update request is answered exactly once on every path; (R17c) watchers are sent exactly the scope produced by "
       "installing this request's value, after installation, the loop carries that scope, a failed update leaves it unchanged, a new watcher gets the "
       "current scope; (R17d) no unchecked map-miss dereference; (R17e) every evaluation on the actor is under a recover; (R17f) no blocking send to a "
-      "client-owned channel; (R17g) no goroutine spawned from the loop (serial delivery). Ordering/fairness between concurrent clients is not decided.", NOTE, "DESIGN.md §3 C17")
+      "client-owned channel; (R17g) no goroutine spawned from the loop (serial delivery); (R17h) a recovered panic is stored into the function's named "
+      "error result on every recovered path (otherwise a panicking update is acknowledged and installs nil). Ordering/fairness between concurrent clients is not decided.", NOTE, "DESIGN.md §3 C17")
 
 claim("C11", "guarded-by analysis (must-hold lockset dataflow, sync.Once Do-closure / dominance), purity of callbacks passed to concurrent frozen APIs and across goroutines, condition-variable wake-up rule",
       "Decides the synchronisation conventions on every path: (R11a) callbacks handed to frozen APIs that fan out over goroutines write no "
-      "captured/package state outside a lock; (R11b) 15 inferred guard pairs - every Once-initialised cell is written only in its Do closure and "
+      "captured/package state outside a lock - including function values that reach such a callback through module wrappers (GenericSet.Where, "
+      "positionalRelation.Where, Relation.Where: inferred to a fixpoint) and closures the callback calls through captured variables; (R11b) 15 inferred guard pairs - every Once-initialised cell is written only in its Do closure and "
       "read only after Do, every mutex-guarded cell is accessed only with the mutex held, every declared Mutex/Once is used, unsynchronised "
       "package-variable writes are limited to an audited start-up list; (R11c) state changes that waiters wait for are followed by a Broadcast; "
       "(R11d) observer callbacks (run on the engine goroutine) write no captured variable; (R11e) a guarded resource is not used after its lock "
@@ -68,20 +71,21 @@ claim("C18", "capability reachability over the VTA call graph with interpreter d
       "Decides the reachability clauses of the sandbox property: (S18a) from each of the 66 Go natives registered in the safe library no process-"
       "execution, network, file-content, unsafe-library or import-resolution capability is reachable (interpreter dispatch cut: evaluating an existing "
       "value mints no capability); (S18b) only host code calls StdScope; (S18c) the scope contextualEval evaluates with has `//` bound on every "
-      "path and defaults to the safe library. Four genuine routes exist today and are listed as known findings. Leaks through a dependency's "
+      "path and defaults to the safe library; (S18d) inside rel's evaluators no nested Eval/Bind is handed the global EmptyScope (which unbinds `//`) "
+      "on a path some caller can take. Four genuine routes exist today and are listed as known findings. Leaks through a dependency's "
       "internals are not decided; the call graph over-approximates, so the claim is level other.", NOTE, "DESIGN.md §3 C18")
 
-claim("C10", "grammar/table agreement, inhabited-type analysis of unchecked assertions, TS-SCCP definite-panic stubs, recover-boundary reachability from goroutine roots, condition-variable wake-up rule",
+claim("C10", "grammar/table agreement, inhabited-type analysis of unchecked assertions, TS-SCCP definite-panic stubs, recover-boundary reachability from goroutine roots, recover-to-error store rule, condition-variable wake-up rule",
       "Absence of panics over all programs is not decidable here (about 160 explicit panics, 400 unchecked assertions); the check decides five "
       "structural necessary conditions exactly: (R10a) no grammar token lacks a table entry at an unguarded lookup; (R10b) no unchecked assertion to "
       "a type that no value ever has; (R10c) no interface method of a value type is an unconditional panic (24 known stubs on function values); "
       "(R10e) every goroutine root that gRPC or `go` hands us crosses a recover before compiling/evaluating client text; (R10f) no lost wake-up on "
       "the import cache's condition variable; plus the engine/import-cache liveness rules shared with C16/C17 (R17a self-communication, R17d map-miss "
-      "dereference, R17e recover on the actor, R16d re-entrant wait). Index-out-of-range, nil dereference, recursion depth and termination are not decided.", NOTE, "DESIGN.md §3 C10")
+      "dereference, R17e recover on the actor, R17h recovered panic stored into the named error result, R16d re-entrant wait). Index-out-of-range, nil dereference, recursion depth and termination are not decided.", NOTE, "DESIGN.md §3 C10")
 
 claim("C15", "dominance of recorders over readers, flag-fixed reachability of host effects along all call paths from Compile, sibling agreement of archive-location derivations",
       "Decides structural necessary conditions of bundle = sources: (R15a) every import read is either bundle-run-only or dominated by its recorder "
-      "with the error propagated; (R15b) no host access (network, process, host files, cwd) is reachable from Compile while isRunningBundle is true, "
+      "with the error propagated; (R15d) the module component of the entries SetupBundle writes is the very value it stores in config.mainRoot; (R15b) no host access (network, process, host files, cwd) is reachable from Compile while isRunningBundle is true, "
       "along every call path; (R15c) every recorder derives archive locations through the same mapping (bundleConfig.mainRoot/absRootPath or "
       "createModulePath) that the runtime re-derives. That the computed archive path equals the runtime path for every layout is string algebra "
       "and not decided.", NOTE, "DESIGN.md §3 C15")
@@ -90,13 +94,15 @@ claim("C16", "taint/dominance of the import-path sanitiser with symbolic evaluat
       "Decides structural necessary conditions of import confinement and cycle handling: (R16a) the path text reaches importLocalFile only after "
       "path.Clean and a dominating rejecting branch whose condition rejects every shape an escaping cleaned relative path can take (.., ../x, "
       "../../x); (R16b) root imports read rootPath + / + … from findRootFromModule; (R16c) no lost wake-up in the import cache; (R16d) a cyclic import "
-      "re-enters getOrAdd with no owner test (genuine hang, known finding). Which other strings the sanitiser lets through (whitespace, absolute "
+      "re-enters getOrAdd with no owner test (genuine hang, known finding); (R16e) the module-root cache is written only on the true branch of the "
+      "sentinel test of the stored root. Which other strings the sanitiser lets through (whitespace, absolute "
       "forms), symlinks and equal values across spellings are not decided.", NOTE, "DESIGN.md §3 C16")
 
 claim("C09", "error-discipline and merge-discipline checks over every Pattern.Bind call site (go/ssa def-use, dominance), data-dependence of the agreement test",
       "Decides the error and merge discipline of pattern matching: (R09a) at each of the 19 Bind call sites the error is passed through or tested "
       "and the bound scope is used only on the nil branch; (R09b) composite patterns combine sub-bindings only through MatchedUpdate/MatchedWith "
-      "with the error propagated; (R09c) the agreement test on repeated names must be extensional (it is String()-based today: known finding). "
+      "with the error propagated; (R09c) the agreement test on repeated names must be extensional (it is String()-based today: known finding); (R09d) for every structural pattern and every value type of another kind, Bind with that "
+      "dynamic type fixed (TS-SCCP, all values of the type) reaches no nil-error return. "
       "Which values a pattern matches (index arithmetic over offsets and holes, rest capture) is value-level and not decided.", NOTE, "DESIGN.md §3 C09")
 
 claim("C04", "symbolic evaluation of the join operators' combine/partitionNames function literals in a 3-region heading algebra over all 8 worlds; constant-folded switch exhaustiveness",
